@@ -33,4 +33,8 @@ theorem check_facts_good : Facts.secureCheck.Good := by decide
 theorem holds_whole_file_hashed (b : Bytes) : Secure.hashedPart Facts.secureCheck b = b :=
   Props.C13.whole_file_hashed _ check_facts_good b
 
+theorem holds_given_checksum_compared (norm : Bytes → Bytes) (given : Bytes) :
+    Secure.comparedSum Facts.secureCheck norm given = given :=
+  Props.C13.given_checksum_compared _ check_facts_good norm given
+
 end GoPlugin.Instance.C13
